@@ -1,6 +1,6 @@
 (* C06 — cooked view = raw view with imports inlined and inherited attributes integrated. *)
 From Coq Require Import NArith List Bool.
-From Dwgrep Require Import Forest ForestProofs.
+From Dwgrep Require Import Forest ForestProofs FindAttr FindAttrProofs.
 Import ListNotations.
 Local Open Scope N_scope.
 
@@ -28,7 +28,26 @@ Theorem C06_own_then_inherited : forall fu f d,
     Forall (fun oa => fst oa = d_off d /\ In (snd oa) (d_attrs d)) own /\
     Forall (fun n => should_integrate n = true) (names inherited).
 Proof. exact cooked_attrs_own_then_inherited. Qed.
+(* `@AT_x` is `attribute ?AT_x`: what the model of find_attribute (recursion: the DIE itself, then what
+   DW_AT_specification leads to, then what DW_AT_abstract_origin leads to) finds is the first attribute of that
+   name that the model of attribute_producer (explicit stack, seen-set) yields - for every name (integrated or
+   not), every DIE whose link chains end within k steps (any k, any shape, shared targets), given fuel for the walk *)
+Theorem C06_atval_is_first_attribute : forall f x k d fuel,
+  deep f k d -> (length (pre f k d) < fuel)%nat ->
+  find (hasname x) (cooked_attrs fuel f d) = FindAttrM.find_attr (S k) f d x.
+Proof. exact atval_is_first_attribute. Qed.
+Example C06_atval_nonvacuous :
+  let base := Die 30 52 false 3 [mkattr 3 8 None; mkattr 11 11 None] [] in
+  let mid := Die 20 52 false 2 [mkattr AT_abstract_origin 19 (Some 30)] [] in
+  let top := Die 10 52 false 1 [mkattr AT_specification 19 (Some 20); mkattr 58 11 None] [] in
+  let f := [mkunit 0 4 0 (Some (Die 1 17 true 9 [] [top; mid; base]))] in
+  deep f 2 top /\ (length (pre f 2 top) < 10)%nat /\
+  FindAttrM.find_attr 3 f top 11 = Some (30, mkattr 11 11 None) /\
+  find (hasname 11) (cooked_attrs 10 f top) = Some (30, mkattr 11 11 None).
+Proof. vm_compute. repeat split; repeat constructor. Qed.
+
 Print Assumptions C06_inlining_in_place.
+Print Assumptions C06_atval_is_first_attribute.
 Print Assumptions C06_no_import_left.
 Print Assumptions C06_no_imports_no_change.
 Print Assumptions C06_no_name_twice.
